@@ -35,7 +35,7 @@ const (
 type c16Vec struct {
 	names    int // 0 short only, 1 long only, 2 both
 	desc     bool
-	def      int // 0 none, 1 default tag, 2 default + mask, 3 default + mask "-"
+	def      int // 0 none, 1 default tag, 2 default + mask, 3 default + mask "-", 4 the default itself is "-" (no mask)
 	env      bool
 	choices  bool
 	valname  bool
@@ -70,6 +70,8 @@ func c16Build(v c16Vec, placement int) *c16Decl {
 		u.Defaults, u.DefaultMask = []string{"UDFLTX%H"}, "UMASKX<0-100%>"
 	case 3:
 		u.Defaults, u.DefaultMask = []string{"UDFLTX%H"}, "-"
+	case 4:
+		u.Defaults = []string{"-"}
 	}
 	if v.env {
 		u.Env = "UENVX"
@@ -146,7 +148,7 @@ var c16ManShortRe = regexp.MustCompile(`\\-u\\fR`)
 
 func init() {
 	body := func(c *explore.Ctx) {
-		v := c16Vec{names: c.Choose(3), desc: c.Bool(), def: c.Choose(4), env: c.Bool(), choices: c.Bool(), valname: c.Bool(), hidden: c.Bool(), required: c.Bool()}
+		v := c16Vec{names: c.Choose(3), desc: c.Bool(), def: c.Choose(5), env: c.Bool(), choices: c.Bool(), valname: c.Bool(), hidden: c.Bool(), required: c.Bool()}
 		v.onoff = v.def == 0 && c.Bool()
 		placement := c.Choose(c16NPlacements)
 		ci := c.Choose(len(c16Chains))
@@ -330,6 +332,10 @@ func init() {
 						if !has("UMASKX<0-100%>") {
 							miss("default-mask", "UMASKX<0-100%>")
 						}
+					case 4:
+						if !v.choices && !has("default: -") {
+							miss("default", "default: -")
+						}
 					}
 					if v.env && !has(u.EnvNS) {
 						miss("env", u.EnvNS)
@@ -419,7 +425,7 @@ func init() {
 		Level:      "exploration",
 		ShardDepth: 6,
 		Body:       body,
-		Rule: "option under test with every attribute vector {short only, long only, both} x description? x default {none, tag, tag+mask, tag+mask '-'} x env? x choices? x value-name? x hidden? (spelled yes / False / NO) x required? (768 vectors; defaults, masks and descriptions contain per-cent signs; without a default also as a bool-kinded Unmarshaler type) " +
+		Rule: "option under test with every attribute vector {short only, long only, both} x description? x default {none, tag, tag+mask, tag+mask '-', the tag '-' itself} x env? x choices? x value-name? x hidden? (spelled yes / False / NO) x required? (768 vectors; defaults, masks and descriptions contain per-cent signs; without a default also as a bool-kinded Unmarshaler type) " +
 			"x 10 placements (parser group, namespaced subgroup with env-namespace, hidden subgroup, command, command's group, hidden command, sub-subcommand, sibling command, subgroup nested in the env-namespaced subgroup without / with its own env-namespace) x 5 active chains (none, add, add deep, rm, the hidden command) " +
 			"x {WriteHelp after a parse that selects the chain, the ErrHelp text of --help at that chain, WriteManPage} (+ the ErrHelp text requested after an occurrence of the option with a value, which must not show up; + a variant where one command is hidden and another un-hidden through the public Hidden field after a first help/man rendering on the same parser); every string is a unique marker; oracle: a visible option's markers (names, value name, choices, description, default or mask, env) are present and its description sits on its row, " +
 			"nothing of a hidden option / hidden group / hidden or inactive command appears, a masked default's real value never appears; the fixed part of the declaration (bystander options, described positionals, commands with aliases, hidden command and group, a command without options of its own whose subcommand has one, a described command with a multi-byte name, a func(string) option with a description) is checked on every leaf; " +
